@@ -338,11 +338,27 @@ def live_or_new(c, dreye, inp, **kw):
     return c.call(make_estimator, dreye, inp, _where="ReceptorEstimator+register_system", **kw)
 
 
-def rereg_check(c, dreye, inp, first_query, check, matrix_ok=True):
+def rereg_check(c, dreye, inp, first_query, check, matrix_ok=True, retarget=None):
     """Generic stale-state workload: build an estimator from `inp`, run `first_query(est)`, apply one registration call
     (seeded by inp['rereg_seed']), then run `check(new_inp, c)` against the SAME estimator with the new registered values."""
     est = c.call(make_estimator, dreye, inp, _where="ReceptorEstimator+register_system")
-    c.try_call(first_query, est)
+    swapped = {}
+    if int(inp["rereg_seed"]) % 3 == 0:
+        # the first query asks about OTHER targets of the same shape (a result remembered per shape / per system would
+        # answer the judged query with them); first_query reads the targets from `inp` when it is called
+        from .core import CaseCtx
+        for key in ("B", "b", "extra"):
+            v = inp.get(key)
+            d, changed = CaseCtx._decoy_of(v) if isinstance(v, np.ndarray) and v.size >= 3 else (v, False)
+            if changed:
+                swapped[key] = v
+                inp[key] = d
+        if swapped:
+            c.cell("first-query=other-targets")
+    try:
+        c.try_call(first_query, est)
+    finally:
+        inp.update(swapped)
     if int(inp["rereg_seed"]) % 2 == 0:
         # asking again in the SAME state (the first query may have left something behind): judged like any other answer
         c.cell("rereg=none(ask-twice)")
@@ -360,5 +376,7 @@ def rereg_check(c, dreye, inp, first_query, check, matrix_ok=True):
     op, t = res
     c.cell("rereg=" + op)
     t = dict(t)
+    if retarget is not None:
+        retarget(t, rr)         # e.g. a new target that meets the property's precondition for the NEW registered system
     t["_live_estimator"] = est
     return check(t, c)
